@@ -37,6 +37,7 @@ def relay_universe():
         E("x1", "B", 20000, 40, [["t", "a"]]),
         E("r1", "A", 10000, 15, [["t", "b"]]),
         E("r2", "A", 10000, 25, [["t", "b"]]),
+        E("n4", "B", 1, 31, [["t", "a"], ["t", "b"], ["p", "A"], ["p", "B"]]),     # the same tag name several times
         E("fx", "B", 1, 35, [["t", "a"]], mutate=_wrong_id),      # signed correctly, id field is not the hash
         E("fs", "A", 1, 36, [["t", "a"]], mutate=_bad_sig),
         # events on which add_event raises something other than a StorageError (a signature that is not hex; a correctly
